@@ -550,21 +550,11 @@ def explore(
 # --------------------------------------------------------------------------------------
 # coverage certificate: the executed path classes cover every input inside the bounds
 # --------------------------------------------------------------------------------------
-def _free_names(e, acc: set[str], seen: set[int]) -> None:
-    stack = [e]
-    while stack:
-        x = stack.pop()
-        i = x.get_id()
-        if i in seen:
-            continue
-        seen.add(i)
-        if z3.is_const(x) and x.decl().kind() == z3.Z3_OP_UNINTERPRETED:
-            acc.add(x.decl().name())
-        stack.extend(x.children())
-
-
 def certify_cover(pcs: list, declared: set[str], bounds: dict) -> dict:
-    """Residue query  bounds /\\ not(pc_1 \\/ ... \\/ pc_n)  must be unsat (z3 and cvc5)."""
+    """Second opinion on "exhausted": the residue  bounds /\\ not(pc_1 \\/ ... \\/ pc_n)  must be unsat
+    (z3 and, independently, the cvc5 binary), and sampled pairs pc_i /\\ pc_j must be unsat (the executed
+    paths are classes, not overlapping samples).  Only for units whose path conditions mention nothing but
+    declared inputs."""
     import subprocess
     import tempfile
 
@@ -572,73 +562,55 @@ def certify_cover(pcs: list, declared: set[str], bounds: dict) -> dict:
     if not pcs:
         out["status"] = "skipped: no paths"
         return out
-    if len(pcs) > 4000:
-        out["status"] = "skipped: too many paths"
+    if len(pcs) > 1500:
+        out["status"] = "skipped: more than 1500 paths"
         return out
-    names: set[str] = set()
+    consts: dict[str, Any] = {}
+    stack = list(pcs)
     seen: set[int] = set()
-    for p in pcs:
-        _free_names(p, names, seen)
-    extra = names - declared
+    while stack:
+        x = stack.pop()
+        if x.get_id() in seen:
+            continue
+        seen.add(x.get_id())
+        if z3.is_const(x) and x.decl().kind() == z3.Z3_OP_UNINTERPRETED:
+            consts[x.decl().name()] = x
+        stack.extend(x.children())
+    extra = set(consts) - declared
     if extra:
         out["status"] = "skipped: path conditions mention fresh symbols"
         out["fresh"] = sorted(extra)[:5]
         return out
-    # the bounds are the first assertions of every path condition; take them from
-    # path 0's prefix: every pc contains them, so residue = bounds /\ not(OR pcs)
-    # is expressed as: not(OR pcs) /\ bounds, with bounds re-stated from `bounds`.
+    # restate the bounds of the declared integer inputs (names carry a uniq suffix: <name>_<n>)
+    bnd = []
+    for nm, c in consts.items():
+        base = None
+        for b_ in bounds:
+            if (nm == b_ or nm.startswith(b_ + "_")) and (base is None or len(b_) > len(base)):
+                base = b_
+        if base is not None and isinstance(bounds[base], list) and z3.is_int(c):
+            lo, hi = bounds[base]
+            bnd += [c >= lo, c <= hi]
     t = time.perf_counter()
     s = z3.Solver()
     s.set("timeout", 120_000)
-    bnd = []
-    byname = {}
-    for p in pcs[:1]:
-        acc: set[str] = set()
-        _free_names(p, acc, set())
-    # rebuild declared consts by walking
-    consts: dict[str, Any] = {}
-    stack = list(pcs)
-    seen2: set[int] = set()
-    while stack:
-        x = stack.pop()
-        if x.get_id() in seen2:
-            continue
-        seen2.add(x.get_id())
-        if z3.is_const(x) and x.decl().kind() == z3.Z3_OP_UNINTERPRETED:
-            consts[x.decl().name()] = x
-        stack.extend(x.children())
-    for nm, c in consts.items():
-        base = None
-        for b in bounds:
-            if nm.startswith(b + "_") or nm == b:
-                if base is None or len(b) > len(base):
-                    base = b
-        if base is not None and isinstance(bounds[base], list) and z3.is_int(c):
-            lo, hi = bounds[base]
-            bnd.append(c >= lo)
-            bnd.append(c <= hi)
     s.add(*bnd)
     s.add(z3.Not(z3.Or(*pcs)))
-    r = s.check()
-    out["z3_residue"] = str(r)
+    out["z3_residue"] = str(s.check())
     out["z3_s"] = round(time.perf_counter() - t, 2)
-    # second solver
     try:
         with tempfile.NamedTemporaryFile("w", suffix=".smt2", delete=False) as f:
             f.write("(set-logic ALL)\n" + s.to_smt2())
             path = f.name
         t = time.perf_counter()
-        pr = subprocess.run(
-            ["cvc5", "--tlimit=120000", path], capture_output=True, text=True, timeout=150
-        )
+        pr = subprocess.run(["cvc5", "--tlimit=120000", path], capture_output=True, text=True, timeout=150)
         out["cvc5_residue"] = (pr.stdout.strip().splitlines() or ["?"])[0]
         out["cvc5_s"] = round(time.perf_counter() - t, 2)
         if "(error" in pr.stdout or "(error" in pr.stderr:
-            out["cvc5_residue"] = "error"
+            out["cvc5_residue"] = "error"  # inconclusive, never a pass
         os.unlink(path)
-    except Exception as e:  # cvc5 missing or timed out: inconclusive second opinion
+    except Exception as e:
         out["cvc5_residue"] = "unavailable: %s" % type(e).__name__
-    # pairwise disjointness on a sample of pairs
     n = len(pcs)
     pairs = [(i, j) for i in range(n) for j in range(i)]
     random.Random(0).shuffle(pairs)
@@ -651,15 +623,10 @@ def certify_cover(pcs: list, declared: set[str], bounds: dict) -> dict:
             overl += 1
     out["pairs_checked"] = len(pairs)
     out["pairs_overlapping"] = overl
-    out["status"] = (
-        "certified"
-        if out["z3_residue"] == "unsat" and out.get("cvc5_residue") in ("unsat",)
-        else (
-            "certified-z3-only"
-            if out["z3_residue"] == "unsat"
-            else "NOT-CERTIFIED"
-        )
-    )
+    if out["z3_residue"] == "unsat" and overl == 0:
+        out["status"] = "certified" if out.get("cvc5_residue") == "unsat" else "certified-z3-only"
+    else:
+        out["status"] = "NOT-CERTIFIED"
     return out
 
 
